@@ -73,9 +73,11 @@ func (d *DebugDialer) Dial(ctx context.Context, urlstr string) (conn net.Conn, b
 		// We must split response inside buffered bytes from other received
 		// bytes from server.
 		p := resBuf.Bytes()
-		n := bytes.Index(p, headEnd)
-		h := n + len(headEnd)         // Head end index.
-		n = h + int(resContentLength) // Body end index.
+		h := headEndIndex(p)           // Head end index.
+		n := h + int(resContentLength) // Body end index.
+		if n > len(p) {
+			n = len(p)
+		}
 
 		onResponse(p[:n])
 
@@ -118,7 +120,26 @@ func (rwc rwConn) Write(p []byte) (int, error) {
 	return rwc.w.Write(p)
 }
 
-var headEnd = []byte("\r\n\r\n")
+// headEndIndex returns the index of the first byte after the blank line that
+// ends the HTTP head in p. Lines may end with "\r\n" or "\n", as the Dialer
+// accepts both. If there is no blank line (no or incomplete response) it
+// returns len(p).
+func headEndIndex(p []byte) int {
+	for i := 0; i < len(p); {
+		j := bytes.IndexByte(p[i:], '\n')
+		if j == -1 {
+			break
+		}
+		i += j + 1
+		if i < len(p) && p[i] == '\n' {
+			return i + 1
+		}
+		if i+1 < len(p) && p[i] == '\r' && p[i+1] == '\n' {
+			return i + 2
+		}
+	}
+	return len(p)
+}
 
 type prefetchResponseReader struct {
 	source io.Reader // Original connection source.
